@@ -8,7 +8,7 @@ L3  the property itself on the implementation: a value outside the documented do
     ValueError/TypeError-family error and leave nothing fitted, a value inside must be accepted; malformed training
     data must be rejected; predict/score/print before fit must raise; check_groups against an independent spec.
 """
-import collections, contextlib, inspect, io, itertools, json, sys
+import collections, contextlib, inspect, io, itertools, json, os, select, signal, sys, time
 from fractions import Fraction
 from numbers import Integral, Real
 import numpy as np
@@ -20,6 +20,7 @@ from sklearn.exceptions import NotFittedError
 from sklearn.metrics import pairwise_distances
 from gemclus._base_gemini import DiscriminativeModel
 from gemclus.sparse._base_sparse import check_groups
+from gemclus._constraints import check_constraint
 from gemclus.tree.kauri import Tree
 import gemclus.data as gdata
 
@@ -78,6 +79,60 @@ def outcome(fn):
         return "accepted", quiet(fn)
     except Exception as e:  # noqa
         return ("VT" if isinstance(e, (ValueError, TypeError)) else "other"), e
+
+
+def canary(fn, timeout=10.0):
+    """Run fn in a forked child first: 'accepted' / 'VT' / 'other' as outcome(), or 'died:<signal>' / 'timeout' when the call kills
+    or hangs the interpreter.  Used before every call made with a configuration that is expected to be rejected (or whose
+    validation verdict already disagrees with the model / the documentation): the concrete input is then reported even when the
+    implementation crashes on it."""
+    sys.stdout.flush()
+    sys.stderr.flush()
+    r, w = os.pipe()
+    pid = os.fork()
+    if pid == 0:
+        code = b"other"
+        try:
+            os.close(r)
+            code = outcome(fn)[0].encode()
+        except BaseException:  # noqa
+            code = b"other"
+        finally:
+            try:
+                os.write(w, code)
+            finally:
+                os._exit(0)
+    os.close(w)
+    ready, _, _ = select.select([r], [], [], timeout)
+    if not ready:
+        os.kill(pid, signal.SIGKILL)
+        os.waitpid(pid, 0)
+        os.close(r)
+        return "timeout"
+    msg = os.read(r, 64).decode()
+    os.close(r)
+    _, status = os.waitpid(pid, 0)
+    if os.WIFSIGNALED(status) or not msg:
+        return "died:" + (signal.Signals(os.WTERMSIG(status)).name if os.WIFSIGNALED(status) else f"exit {os.WEXITSTATUS(status)}")
+    return msg
+
+
+CRASHED = {}
+
+
+def survives(chk, sig, key, what, replay, fn):
+    """True when it is safe to make the call in this process.  A call that kills or hangs the interpreter is a failure of the
+    property (neither accepted nor a ValueError/TypeError), recorded with its concrete input; the same configuration is not run again."""
+    if sig in CRASHED:
+        chk.fail(key, f"{what}: not run, the same configuration {CRASHED[sig]}", replay, layer="L3")
+        return False
+    c = canary(fn)
+    chk.dist[f"canary:{c.split(':')[0] if c.startswith('died') or c == 'timeout' else 'survived'}"] += 1
+    if c.startswith("died") or c == "timeout":
+        CRASHED[sig] = f"already {'killed the interpreter (' + c[5:] + ')' if c.startswith('died') else 'hung for more than 10 s'} in an earlier case"
+        chk.fail(key, f"{what}: the call {'kills the interpreter (' + c[5:] + ')' if c.startswith('died') else 'does not return within 10 s'} — neither accepted nor a ValueError/TypeError", replay, layer="L3")
+        return False
+    return True
 
 
 def fitted_attrs(est):
@@ -462,6 +517,16 @@ def stream_params(chk, i, rng):
         r_val, _ = outcome(lambda: cls(**kw)._validate_params())
         est = cls(**kw)
         y = (Dm if p == "metric" else K) if (p in ("kernel", "metric") and isinstance(obj, str) and obj == "precomputed") else None
+        if r_val == "accepted" and (not sat or doc is False):
+            # validation let through a value that the model of the constraints / the documentation excludes: nothing may be
+            # trained in this process with it before the input is on record
+            if (r_val == "accepted") != sat:
+                chk.fail(f"validator:{p}:{v.kind}", f"{name}.{p}={v.label}: validation accepts but the model of the declared constraints says reject", replay)
+            if not survives(chk, (p, v.tok), f"doc-accepts:{p}" if doc is False else f"other-exception:{p}",
+                            f"{name}.{p}={v.label} ({'outside' if doc is False else 'inside'} the documented domain) passes validation and fit is called", replay,
+                            lambda: cls(**kw).fit(X, y)):
+                chk.count((name, p, v.tok))
+                continue
         r_fit, exc = outcome(lambda: est.fit(X, y))
         rejected = classify(chk, f"{name}.{p}", p, v, sat, doc, r_val, r_fit, exc, replay)
         by_type_only = v.extreme or (v.kind == "instance" and p in ("kernel", "metric", "base_kernel"))
@@ -518,6 +583,13 @@ def stream_functions(chk, i, rng):
         if gen != sat and not translator_failed:
             chk.fail("gen-vs-live:value", f"{name}.{p}={v.label}: regenerated table says {gen}, live constraints say {sat}", replay)
         obj = v.make()
+        pre = True if cons is None else any(check_constraint(c).is_satisfied_by(obj) for c in cons)     # what the decorator will decide
+        if pre and (not sat or doc is False):
+            if not survives(chk, ("fn", name, p, v.tok), f"doc-accepts:{p}" if doc is False else f"other-exception:{p}",
+                            f"{name}({p})={v.label} ({'outside' if doc is False else 'inside'} the documented domain) passes validation and the body runs", replay,
+                            lambda: call_function(name, p, obj)):
+                chk.count(("fn", name, p, v.tok))
+                continue
         r, exc = outcome(lambda: call_function(name, p, obj))
         # the decorated call is validation followed by the body: the validator's own verdict is visible in the exception class
         r_val = None
@@ -540,8 +612,12 @@ def stream_cross(chk, i, rng):
         leaf, split = 1 + i // 8, 2 + i % 8
         ok = chk.ask(f"c16.cross {leaf} {split}").bool()
         est = impl.Kauri(max_clusters=2, min_samples_leaf=leaf, min_samples_split=split, random_state=0)
-        r, exc = outcome(lambda: est.fit(X))
         replay = {"estimator": "Kauri", "min_samples_leaf": leaf, "min_samples_split": split}
+        if not ok and not survives(chk, ("kauri-cross", leaf, split), "cross:kauri", f"Kauri(min_samples_leaf={leaf}, min_samples_split={split}).fit", replay,
+                                   lambda: impl.Kauri(max_clusters=2, min_samples_leaf=leaf, min_samples_split=split, random_state=0).fit(X)):
+            chk.count(("kauri", leaf, split))
+            return
+        r, exc = outcome(lambda: est.fit(X))
         if (r == "accepted") != ok:
             chk.fail("cross:kauri:model-mismatch", f"Kauri(min_samples_leaf={leaf}, min_samples_split={split}).fit: {r}, model says {'accept' if ok else 'reject'}", replay)
         if (r == "accepted") != (2 * leaf <= split) or r == "other":
@@ -558,8 +634,12 @@ def stream_cross(chk, i, rng):
         arr = None if mask is None else np.array(mask, dtype=bool)
         ok = chk.ask(f"c16.mask {enc_opt(mask, lambda m: enc_list(m, lambda b: str(int(b))))} {d}").bool()
         est = impl.Douglas(n_clusters=2, feature_mask=arr, max_iter=1, random_state=0)
-        r, exc = outcome(lambda: est.fit(X))
         replay = {"estimator": "Douglas", "feature_mask": mask, "d": d}
+        if not ok and not survives(chk, ("douglas-mask", str(mask)), "cross:douglas", f"Douglas(feature_mask={mask}).fit on {d} features", replay,
+                                   lambda: impl.Douglas(n_clusters=2, feature_mask=arr, max_iter=1, random_state=0).fit(X)):
+            chk.count(("douglas", str(mask)))
+            return
+        r, exc = outcome(lambda: est.fit(X))
         if (r == "accepted") != ok:
             chk.fail("cross:douglas:model-mismatch", f"Douglas(feature_mask={mask}).fit on {d} features: {r}, model says {'accept' if ok else 'reject'}", replay)
         if (r == "accepted") != (mask is None or (len(mask) == d and any(mask))) or r == "other":
@@ -631,9 +711,14 @@ def stream_malformed(chk, i, rng):
             est = impl.make(name, n_clusters=3, max_iter=1, random_state=0)
         call = dict(entry_points(est))[ep]
         Xb = make()
-        r, exc = outcome(lambda: call(Xb))
         replay = {"estimator": name, "input": kind, "entry_point": ep}
         what = f"{name}.{ep} on {kind} data"
+        # fit_predict is fit followed by an attribute read: the canary of fit (same configuration) stands for it
+        if not well_formed and not observed and (ep != "fit_predict" or ("data", name, kind) in CRASHED) and \
+                not survives(chk, ("data", name, kind), f"data:other-exception:{kind}:{family(name)}", what, replay, lambda: call(make())):
+            chk.count(("data", name, kind, ep))
+            continue
+        r, exc = outcome(lambda: call(Xb))
         if observed:
             chk.dist[f"data:{kind}:{ep}:{r}"] += 1
             note = "training data given as an object array of numeric strings is converted by scikit-learn's check_array (astype(float64)): observed, not judged (see input_distribution 'data:observed:...')"
@@ -700,8 +785,12 @@ def stream_affinity(chk, i, rng):
                 "complex": (A.astype(complex), (2, N, N, 0, 1)),
                 "given": (A, (2, N, N, 1, 1)), "given-as-list": (A.tolist(), (2, N, N, 1, 1)), "given-as-object-array": (A.astype(object), (2, N, N, 1, 1))}[kind]
     ep = "fit_predict" if i % 2 else "fit"
-    r, exc = outcome(lambda: getattr(est, ep)(X, y))
     replay = {"estimator": name, "precomputed": kind, "entry_point": ep}
+    if not kind.startswith(("given", "observed:")) and not survives(chk, ("aff", name, kind, ep), "affinity:crash", f"{name}.{ep} with a {kind} precomputed affinity", replay,
+                                                                     lambda: getattr(est, ep)(X, y)):
+        chk.count(("affinity", name, kind))
+        return
+    r, exc = outcome(lambda: getattr(est, ep)(X, y))
     if kind.startswith("observed:"):
         chk.dist[f"affinity:{kind}:{r}"] += 1
         note = "a precomputed affinity given as an object array of numeric strings is converted by check_array: observed, not judged"
@@ -836,6 +925,9 @@ def one_groups(chk, d, groups, via_fit=False):
     if via_fit:
         X = data(6, d)
         est = impl.SparseLinearModel(n_clusters=2, groups=[list(g) for g in groups], max_iter=1, random_state=0)
+        if want is None and not survives(chk, ("groups-fit", d, repr(groups)), "groups:via-fit", f"SparseLinearModel(groups={groups}).fit on {d} features", replay,
+                                         lambda: impl.SparseLinearModel(n_clusters=2, groups=[list(g) for g in groups], max_iter=1, random_state=0).fit(X)):
+            return
         rf, exc = outcome(lambda: est.fit(X))
         if (rf == "accepted") != (want is not None) or rf == "other" or (rf == "accepted" and [list(map(int, g)) for g in est.groups_] != want):
             chk.fail("groups:via-fit", f"SparseLinearModel(groups={groups}).fit on {d} features: {rf} groups_={getattr(est, 'groups_', None)}, specification {want}", replay, layer="L3")
@@ -880,8 +972,8 @@ def stream_groups_entries(chk, i, rng):
         seq = pairs[i]
     else:
         seq = [ENTRY_ALPHABET[int(k)] for k in rng.integers(0, len(ENTRY_ALPHABET), size=3)]
-    for g in splits(seq):
-        one_groups(chk, 3, g, via_fit=True)
+    for k, g in enumerate(splits(seq)):
+        one_groups(chk, 3, g, via_fit=(k == 0))
 
 
 def stream_groups_malformed(chk, i, rng):
@@ -893,8 +985,12 @@ def stream_groups_malformed(chk, i, rng):
     X = data(6, d)
     for name in ("SparseLinearModel", "SparseMLPModel"):
         est = impl.make(name, n_clusters=2, groups=groups, max_iter=1, random_state=0)
-        r, exc = outcome(lambda: est.fit(X))
         replay = {"estimator": name, "groups": repr(groups), "d": d}
+        if not survives(chk, ("gm", name, label), "groups:malformed-other-exception", f"{name}(groups={groups!r}) [{label}]", replay,
+                        lambda: impl.make(name, n_clusters=2, groups=groups, max_iter=1, random_state=0).fit(X)):
+            chk.count(("gm", name, label))
+            continue
+        r, exc = outcome(lambda: est.fit(X))
         if r == "accepted":
             chk.fail("groups:malformed-accepted", f"{name}(groups={groups!r}) [{label}] is trained; groups_={est.groups_!r}", replay, layer="L3")
         elif r == "other":
@@ -1185,8 +1281,11 @@ def stream_rect_affinity(chk, i, rng):
         est = fitted if ep == "score" else new()
         before_attrs = snapshot([getattr(est, a) for a in fitted_attrs(est) if isinstance(getattr(est, a), np.ndarray)])
         ysnap = snapshot(y)
-        r, exc = outcome(lambda: call(est))
         replay = {"estimator": name, "precomputed": f"{label} {rows}x{cols} for {N} samples", "entry_point": ep}
+        if ep != "score" and not survives(chk, ("rect", name, label, ep), "affinity:rectangular:crash", f"{name}.{ep} with a {rows}x{cols} precomputed affinity for {N} samples", replay, lambda: call(new())):
+            chk.count(("rect", name, label, ep))
+            continue
+        r, exc = outcome(lambda: call(est))
         if ok or (r == "accepted"):
             chk.fail("affinity:rectangular:model-mismatch" if ok else "affinity:rectangular-accepted", f"{name}.{ep} with a {rows}x{cols} precomputed affinity for {N} samples: {r}; the precomputed rule of the model says {'accept' if ok else 'reject'}", replay, layer="L2" if ok else "L3")
         elif r == "other":
@@ -1301,8 +1400,11 @@ def boundary_cases():
 
 def stream_boundaries(chk, i, rng):
     label, thunk, accept = boundary_cases()[i]
-    r, exc = outcome(thunk)
     replay = {"boundary": label}
+    if not accept and not survives(chk, ("boundary", label), "boundary:other-exception", label, replay, thunk):
+        chk.count(("boundary", label))
+        return
+    r, exc = outcome(thunk)
     if accept and r != "accepted":
         fail_or_observe(chk, f"boundary:in-domain-rejected:{label}", f"{label}: raises {type(exc).__name__}: {str(exc)[:160]}", replay)
     if not accept and r == "accepted":
